@@ -109,38 +109,55 @@ def blockImage (b : SBlock) (n : Nat) (indentation : List Str) : BlockM :=
 
 /-! ### layouts -/
 
-/-- how the body lines of a block are laid out as a comment: white space before the opening
-    token, before every asterisk and before the closing token, the white-space character after
-    the asterisk, the line-ending convention -/
+/-- how the body lines of a block are laid out as a comment: white space before the opening token,
+    before the asterisk of EVERY body line separately (`indents` for body lines 0, 1, …; `indent` for all
+    further lines — so any ragged / staircase layout is a `Layout`), before the closing token, the
+    white-space character after the asterisks, the line-ending convention -/
 structure Layout where
   startIndent : Str
+  indents : List Str
   indent : Str
   endIndent : Str
   sp : Char
   eol : Str
   deriving Repr, DecidableEq
 
+/-- the white space in front of the asterisk of body line `k` -/
+def Layout.indentAt (L : Layout) (k : Nat) : Str := L.indents.getD k L.indent
+
 def wsString (s : Str) : Bool := s.all (fun c => isSpace c && noBreakChar c)
 
 def wfLayout (L : Layout) : Bool :=
-  wsString L.startIndent && wsString L.indent && wsString L.endIndent && isSpace L.sp && noBreakChar L.sp
+  wsString L.startIndent && L.indents.all wsString && wsString L.indent && wsString L.endIndent
+  && isSpace L.sp && noBreakChar L.sp
   && (L.eol == ['\n'] || L.eol == ['\r'] || L.eol == ['\r', '\n'])
 
-def layLine (L : Layout) (l : Str) : Str :=
-  if l.isEmpty then L.indent ++ ['*'] else L.indent ++ '*' :: L.sp :: l
+def layLine (L : Layout) (k : Nat) (l : Str) : Str :=
+  if l.isEmpty then L.indentAt k ++ ['*'] else L.indentAt k ++ '*' :: L.sp :: l
+
+/-- body lines `ls`, the first of which is body line `k`, each behind its own indentation -/
+def layLines (L : Layout) : Nat → List Str → List Str
+  | _, [] => []
+  | k, l :: ls => layLine L k l :: layLines L (k + 1) ls
+
+/-- the indentation of `n` consecutive body lines starting with line `k` (what the parser records) -/
+def indentsFrom (L : Layout) : Nat → Nat → List Str
+  | _, 0 => []
+  | k, n + 1 => L.indentAt k :: indentsFrom L (k + 1) n
 
 def renderLines (L : Layout) (B : BlockM) : List Str :=
-  (L.startIndent ++ str "/**") :: (bodyLines B).map (layLine L) ++ [L.endIndent ++ str "*/"]
+  (L.startIndent ++ str "/**") :: (layLines L 0 (bodyLines B) ++ [L.endIndent ++ str "*/"])
 
 /-- the comment token: the writer's lines for `B` in layout `L` -/
 def render (L : Layout) (B : BlockM) : Str := join L.eol (renderLines L B)
 
-/-- the layout `GtkDocCommentBlockWriter.write` itself uses for a block whose recorded indentation is `ind` -/
+/-- the layout `GtkDocCommentBlockWriter.write` itself uses for a block whose most common recorded
+    indentation is `ind`: the same indentation on every line -/
 def writerLayout (ind : Str) : Layout :=
   let indent := if ind.isEmpty then [' '] else ind
   if endsWith indent ['\t'] then
-    { startIndent := indent, indent := indent ++ [' '], endIndent := indent ++ [' '], sp := ' ', eol := ['\n'] }
+    { startIndent := indent, indents := [], indent := indent ++ [' '], endIndent := indent ++ [' '], sp := ' ', eol := ['\n'] }
   else
-    { startIndent := indent.dropLast, indent := indent, endIndent := indent, sp := ' ', eol := ['\n'] }
+    { startIndent := indent.dropLast, indents := [], indent := indent, endIndent := indent, sp := ' ', eol := ['\n'] }
 
 end GIVerif.AnnParse
